@@ -265,7 +265,7 @@ def space(tier):
         if cfg["capabilities"]:
             cfg["capabilities"] = False      # keep property ids independent of a capability profile
         return {"config": cfg, "settings": settings, "effects": effects, "valid": True}
-    sp.add("valid", 12000 if tier == "quick" else 300_000, valid)
+    sp.add("valid", 12000 if tier == "quick" else 800_000, valid)
 
     def invalid(j, rng):
         cfg = base_cfg(rng)
